@@ -339,7 +339,7 @@ fn perturb_templates(t: &[u8], rep: &mut Report) {
 
 /// UTF-8 encodings of non-ASCII decimal digits, digit-like and letter-like characters, case-folding partners, spaces
 /// and line separators; plus a few ill-formed sequences.
-const MULTIBYTE: [&[u8]; 26] = [
+pub const MULTIBYTE: [&[u8]; 26] = [
     b"\xD9\xA0",         // U+0660 ARABIC-INDIC DIGIT ZERO
     b"\xD9\xA9",         // U+0669 ARABIC-INDIC DIGIT NINE
     b"\xDB\xB1",         // U+06F1 EXTENDED ARABIC-INDIC DIGIT ONE
